@@ -15,7 +15,8 @@ type rval struct {
 	t    types.Type // nil: the zero (invalid) Value
 	v    value      // payload when not addressable
 	addr *value     // non-nil: addressable, payload is *addr
-	ro   bool       // reached through an unexported field
+	ro   bool       // reached through an unexported field (sticky) or is itself an unexported embedded field
+	emb  bool       // ro only because the value is an unexported *embedded* field: not inherited by its exported fields
 }
 
 func isOpaque(t types.Type) bool {
@@ -488,7 +489,8 @@ func init() {
 	field := func(r rval, k int) rval {
 		st := r.t.Underlying().(*types.Struct)
 		f := st.Field(k)
-		out := rval{t: f.Type(), ro: r.ro || !f.Exported()}
+		sticky := r.ro && !r.emb
+		out := rval{t: f.Type(), ro: sticky || !f.Exported(), emb: !sticky && !f.Exported() && f.Anonymous()}
 		if r.addr != nil {
 			out.addr = &(*r.addr).(structure)[k]
 		} else {
